@@ -74,8 +74,13 @@ pub fn band_states(n_paths: usize, thorough: bool) -> Vec<BandState> {
 }
 
 pub fn write_archive(dir: &std::path::Path, paths: &[&str], bands: &[BandState]) {
+    write_archive_from(dir, paths, bands, 0)
+}
+
+/// The same with band ids base, base+1, ... (ids with more digits, ids containing every digit).
+pub fn write_archive_from(dir: &std::path::Path, paths: &[&str], bands: &[BandState], base: usize) {
     fmt06::write_archive_skeleton(dir);
-    for (id, st) in bands.iter().enumerate() {
+    for (id, st) in bands.iter().enumerate().map(|(i, st)| (i + base, st)) {
         match st {
             BandState::Absent => {}
             BandState::Headless => {
@@ -108,10 +113,14 @@ pub fn write_archive(dir: &std::path::Path, paths: &[&str], bands: &[BandState])
 pub static OUTCOMES: std::sync::Mutex<std::collections::BTreeSet<String>> = std::sync::Mutex::new(std::collections::BTreeSet::new());
 
 pub fn judge(dir: &std::path::Path, bands: &[BandState], desc: &str, deep: bool) -> (Vec<Violation>, u64) {
+    judge_from(dir, bands, desc, deep, 0)
+}
+
+pub fn judge_from(dir: &std::path::Path, bands: &[BandState], desc: &str, deep: bool, base: usize) -> (Vec<Violation>, u64) {
     let mut v = Vec::new();
     let snap = Snap::load(dir);
     let mut listings = 0u64;
-    for (id, st) in bands.iter().enumerate() {
+    for (id, st) in bands.iter().enumerate().map(|(i, st)| (i + base, st)) {
         if !matches!(st, BandState::Present { .. }) {
             continue;
         }
@@ -369,6 +378,51 @@ pub fn run(report: &Report, budget: &Budget) {
             report.set("sweep_one_band_with_an_empty_hunk_completed", json!({"paths": np, "bands": nb, "states_with_empty_hunk": with_empty.len(), "archives": n}));
         }
     }
+    // Band ids with more digits and with every digit: the same arrangements at ids 8-10, 98-100 and
+    // 9998-10000 (the directory name grows from four to five digits between the last two).
+    if complete {
+        let np = 2usize;
+        let nb = 3usize;
+        // (head-less and empty-head directories are left to the first sweep)
+        let states: Vec<BandState> = band_states(np, false).into_iter().filter(|s| !matches!(s, BandState::Headless | BandState::EmptyHead)).collect();
+        let bases = [8usize, 98, 9998];
+        let per = states.len().pow(nb as u32);
+        let n = per * bases.len();
+        // (below b9998 nothing exists: an incomplete b9998 makes the tool probe every lower id, so
+        // at that base the lowest version is kept complete)
+        let lowest_complete = |bands: &[BandState]| matches!(bands[0], BandState::Present { complete: true, .. });
+        archives_total += n as u64;
+        let paths = &PATHS[..np];
+        let done = par_for(n, budget, |w, idx| {
+            let base = bases[idx / per];
+            let mut k = idx % per;
+            let mut bands = Vec::new();
+            for _ in 0..nb {
+                bands.push(states[k % states.len()].clone());
+                k /= states.len();
+            }
+            if base > 1000 && !lowest_complete(&bands) {
+                return;
+            }
+            let desc = format!("ids from {base}: {}", describe(&bands, paths));
+            let case = json!({"kind": "c08", "paths": paths, "bands": bands.iter().map(state_json).collect::<Vec<_>>(), "base": base});
+            let _g = announce(w, || format!("C08 {desc}\t{case}"));
+            let dir = scratches[w].fresh("a");
+            write_archive_from(&dir, paths, &bands, base);
+            let (vs, nl) = judge_from(&dir, &bands, &desc, false, base);
+            listings.fetch_add(nl, AO::Relaxed);
+            for v in &vs {
+                report.violation(v, &case);
+            }
+            let _ = std::fs::remove_dir_all(&dir);
+        });
+        archives_done += done as u64;
+        if done < n {
+            complete = false;
+        } else {
+            report.set("sweep_high_band_ids_completed", json!({"paths": np, "bands": nb, "first_ids": bases, "archives": n}));
+        }
+    }
     for o in OUTCOMES.lock().unwrap().iter() {
         report.outcome(o.clone());
     }
@@ -387,6 +441,7 @@ pub fn replay(case: &Value) -> Vec<Violation> {
     let bands: Vec<BandState> = case["bands"].as_array().unwrap().iter().map(state_from_json).collect();
     let scratch = Scratch::new("replay");
     let dir = scratch.fresh("a");
-    write_archive(&dir, &paths, &bands);
-    judge(&dir, &bands, &describe(&bands, &paths), true).0
+    let base = case["base"].as_u64().unwrap_or(0) as usize;
+    write_archive_from(&dir, &paths, &bands, base);
+    judge_from(&dir, &bands, &describe(&bands, &paths), true, base).0
 }
